@@ -75,3 +75,17 @@ Example C03_code_lines :
   code_line "   b varchar(10) DEFAULT='x'" "   b varchar(10) DEFAULT = 'x'" /\
   code_line ");" ");" /\ endswith (code_of ");") ";" = true.
 Proof. repeat split; vm_compute; reflexivity. Qed.
+
+(* the same with a trailing -- comment (any text) on any of the lines: the chunk still returns the machine to its initial state,
+   so C03_statements_independent applies to commented multi-line statements as well (statement: C08_statement_over_commented_lines) *)
+Theorem C03_commented_statement_returns_to_initial_state : forall parse_stmt (body : list cline) st (last : cline) more,
+  Forall (fun c => commented_line (cl_l c) (cl_l' c) (cl_code c) (cl_cms c) /\ endswith (code_of (cl_code c)) ";" = false
+                   /\ starts_stmt (cl_code c) = false) body ->
+  commented_line (cl_l last) (cl_l' last) (cl_code last) (cl_cms last) -> endswith (code_of (cl_code last)) ";" = true ->
+  starts_stmt (cl_code last) = false ->
+  String.eqb (drop_last (joined (join_ccodes st body) (code_of (cl_code last)))) "" = false ->
+  run_lines parse_stmt (collecting st) (map cl_l body ++ [cl_l last]) more =
+  (do r <- parse_stmt (drop_last (joined (join_ccodes st body) (code_of (cl_code last))));
+   Ok (lm0, (entities_of r, (flat_map cl_cms body ++ cl_cms last)%list))).
+Proof. exact statement_over_commented_lines. Qed.
+Print Assumptions C03_commented_statement_returns_to_initial_state.
